@@ -9,7 +9,7 @@ Open Scope list_scope.
 (* non-vacuity: a concrete input (renamed field, expressions in both directions, a ghost field, a #[ghosts] entry, two trait
    instructions) parses to a data type that satisfies data_ok for this instance and expands *)
 Definition example_raw : raw_input :=
-  {| ri_ident := "Rec"; ri_generics := []; ri_attrs := [{| ra_path := Some "map"; ra_toks := [(TGroup DParen [(TIdent "Dto")])] |}; {| ra_path := Some "into_existing"; ra_toks := [(TGroup DParen [(TIdent "Dto")])] |}; {| ra_path := Some "ghosts"; ra_toks := [(TGroup DParen [(TIdent "extra"); (TPunct ":"%char false); (TGroup DBrace [(TLit "7")])])] |}]; ri_data := RStruct ShNamed [{| rf_member := (MNamed "id"); rf_typath := Some [(TIdent "u32")]; rf_ty := [(TIdent "u32")]; rf_attrs := [{| ra_path := Some "map"; ra_toks := [(TGroup DParen [(TIdent "ident")])] |}] |}; {| rf_member := (MNamed "name"); rf_typath := Some [(TIdent "String")]; rf_ty := [(TIdent "String")]; rf_attrs := [{| ra_path := Some "into"; ra_toks := [(TGroup DParen [(TPunct "~"%char true); (TPunct "."%char false); (TIdent "len"); (TGroup DParen [])])] |}; {| ra_path := Some "from"; ra_toks := [(TGroup DParen [(TPunct "~"%char true); (TPunct "."%char false); (TIdent "to_string"); (TGroup DParen [])])] |}] |}; {| rf_member := (MNamed "cache"); rf_typath := Some [(TIdent "Option"); (TPunct "<"%char false); (TIdent "u8"); (TPunct ">"%char false)]; rf_ty := [(TIdent "Option"); (TPunct "<"%char false); (TIdent "u8"); (TPunct ">"%char false)]; rf_attrs := [{| ra_path := Some "ghost"; ra_toks := [(TGroup DParen [(TGroup DBrace [(TIdent "None")])])] |}] |}] |}.
+  {| ri_ident := "Rec"; ri_generics := []; ri_where := []; ri_attrs := [{| ra_path := Some "map"; ra_toks := [(TGroup DParen [(TIdent "Dto")])] |}; {| ra_path := Some "into_existing"; ra_toks := [(TGroup DParen [(TIdent "Dto")])] |}; {| ra_path := Some "ghosts"; ra_toks := [(TGroup DParen [(TIdent "extra"); (TPunct ":"%char false); (TGroup DBrace [(TLit "7")])])] |}]; ri_data := RStruct ShNamed [{| rf_member := (MNamed "id"); rf_typath := Some [(TIdent "u32")]; rf_ty := [(TIdent "u32")]; rf_attrs := [{| ra_path := Some "map"; ra_toks := [(TGroup DParen [(TIdent "ident")])] |}] |}; {| rf_member := (MNamed "name"); rf_typath := Some [(TIdent "String")]; rf_ty := [(TIdent "String")]; rf_attrs := [{| ra_path := Some "into"; ra_toks := [(TGroup DParen [(TPunct "~"%char true); (TPunct "."%char false); (TIdent "len"); (TGroup DParen [])])] |}; {| ra_path := Some "from"; ra_toks := [(TGroup DParen [(TPunct "~"%char true); (TPunct "."%char false); (TIdent "to_string"); (TGroup DParen [])])] |}] |}; {| rf_member := (MNamed "cache"); rf_typath := Some [(TIdent "Option"); (TPunct "<"%char false); (TIdent "u8"); (TPunct ">"%char false)]; rf_ty := [(TIdent "Option"); (TPunct "<"%char false); (TIdent "u8"); (TPunct ">"%char false)]; rf_attrs := [{| ra_path := Some "ghost"; ra_toks := [(TGroup DParen [(TGroup DBrace [(TIdent "None")])])] |}] |}] |}.
 
 Definition example_pair : option (data_type * list tok) :=
   Eval vm_compute in (match parse_input S1 example_raw with
